@@ -54,14 +54,17 @@ def ref_sanitise(parsed):
 
 
 def ref_bb(cap, evs):
-    """expected RemoteAddr strings (spec: most recent carrier with the ClientID among the last cap carriers,
-    else no address) and, per accept, the set of addresses presented for that ClientID so far"""
-    cs, out = [], []
+    """per accepted connection: (session index, first connection of the session?, expected RemoteAddr string,
+    addresses presented for the session's ClientID before it was established, addresses presented only under
+    other ClientIDs before it was established).  Spec: the most recent carrier with the ClientID among the last
+    cap carriers WHEN THE SESSION WAS ESTABLISHED decides, else no address; a further stream of a session (t<k>)
+    carries the session's address whatever carriers came in between."""
+    cs, out, sessions = [], [], []
     for ev in evs:
         if ev[0] == "c":
             i, _, p = ev[1:].split(":")
             cs.insert(0, (i, ref_sanitise(p)))
-        else:
+        elif ev[0] == "a":
             i = ev[1:]
             want = ""
             for j, a in cs[:cap]:
@@ -70,7 +73,11 @@ def ref_bb(cap, evs):
                     break
             own = set(a for j, a in cs if j == i)
             foreign = set(a for j, a in cs if j != i) - own - {""}
-            out.append((want, own, foreign))
+            sessions.append((want, own, foreign))
+            out.append((len(sessions) - 1, True) + sessions[-1])
+        else:
+            k = int(ev[1:])
+            out.append((k, False) + sessions[k])
     return out
 
 
@@ -122,7 +129,18 @@ def analyse(line, impl):
         got = impl.split(",") if impl != "-" else []
         if len(got) != len(exp):
             return ("bb-output", "expected %d accepted connections, got %s" % (len(exp), impl[:100]))
-        for k, (g, (want, own, foreign)) in enumerate(zip(got, exp)):
+        first = {}
+        for k, (g, (sk, is_first, want, own, foreign)) in enumerate(zip(got, exp)):
+            if is_first:
+                first[sk] = (k, g)
+            elif g != first[sk][1]:
+                # judged on the implementation's own answers: two connections of one session disagree
+                def show(t):
+                    return "nil" if t == "n" else repr(bytes.fromhex(t[1:]).decode("utf-8", "replace"))
+                return ("address-changes-within-session",
+                        "accepted connection #%d, a further stream of session %d, has RemoteAddr() %s, but the session's "
+                        "first connection (#%d) had %s; the address is the one looked up when the session was established "
+                        "(expected %r)" % (k, sk, show(g), first[sk][0], show(first[sk][1]), want))
             if g == "n":
                 return ("forgotten-clientid-nil-remoteaddr",
                         "accepted connection #%d has RemoteAddr() == nil (ClientID no longer in the map); "
@@ -325,27 +343,61 @@ def gen_bb(ctx, exe):
         (3, [carrier(ids[1], "0.0.0.0"), carrier(ids[2], "::"), carrier(ids[3], "garbage"), "a" + ids[1], "a" + ids[2], "a" + ids[3]]),
         (4, [carrier(ids[1], ""), carrier(ids[2], "fe80::1%eth0"), carrier(ids[3], "::ffff:9.9.9.9"), "a" + ids[3], "a" + ids[2], "a" + ids[1]]),
     ]
-    for _ in range(300 if ctx.tier == "thorough" else 28):
+    # sessions with several streams opened at different times; between the streams: carriers of the same ClientID
+    # with another / no / an unusable client_ip, carriers of other ClientIDs (evictions from the small map),
+    # other sessions.  Every connection of a session carries the address looked up at its establishment.
+    # (kcp-go keys its sessions by the remote address, here the ClientID: a new session of a ClientID replaces the
+    # previous one, so further streams are only opened on the latest session of a ClientID.)
+    A, B, V6 = "1.2.3.4", "5.6.7.8", "2001:db8::1"
+    scen += [
+        (2, [carrier(ids[1], A), "a" + ids[1], "t0", "t0"]),                                         # nothing in between
+        (2, [carrier(ids[1], A), "a" + ids[1], carrier(ids[1], B), "t0"]),                           # later carrier, other address
+        (2, [carrier(ids[1], A), "a" + ids[1], carrier(ids[1], ""), "t0", carrier(ids[1], "garbage"), "t0"]),   # later carrier, no address
+        (2, [carrier(ids[1], ""), "a" + ids[1], carrier(ids[1], A), "t0"]),                          # no address at establishment stays none
+        (1, [carrier(ids[1], A), "a" + ids[1], carrier(ids[2], B), "t0"]),                           # evicted in between
+        (1, [carrier(ids[1], A), carrier(ids[2], B), "a" + ids[1], carrier(ids[1], V6), "t0"]),      # forgotten at establishment, re-presented later
+        (0, [carrier(ids[1], A), "a" + ids[1], carrier(ids[1], B), "t0"]),
+        (1, [carrier(ids[1], A), "a" + ids[1], carrier(ids[2], B), "t0", carrier(ids[1], V6), "t0", "a" + ids[2], "t1",
+             "a" + ids[1], "t2", "t1", "t2"]),
+        (3, [carrier(ids[0], A), carrier(ids[2], B), "a" + ids[0], "a" + ids[2], carrier(ids[0], B), "t0", carrier(ids[2], "0.0.0.0"),
+             "t1", "t0", carrier(ids[1], V6), carrier(ids[3], V6), carrier(ids[1], "::"), "t0", "t1"]),
+    ]
+    for n in range(300 if ctx.tier == "thorough" else 30):
         cap = rng.choice([0, 1, 1, 2, 2, 3, 5])
         pool = ids[:rng.choice([2, 3, 4])]
-        evs, avail = [], {i: 0 for i in pool}
-        for _ in range(rng.choice([3, 5, 8])):
+        evs, avail, nsess, live = [], {i: 0 for i in pool}, 0, {}
+        pstream = 0.0 if n % 3 == 0 else 0.3            # a third keeps the one-stream-per-session shape
+        for _ in range(rng.choice([3, 5, 8]) if pstream == 0.0 else rng.choice([5, 8, 12])):
             can = [i for i in pool if avail[i] > 0]
-            if can and rng.random() < 0.45:
+            r = rng.random()
+            if live and r < pstream:
+                evs.append("t%d" % rng.choice(sorted(live.values())))
+            elif can and r < pstream + 0.3:
                 i = rng.choice(can)
                 avail[i] -= 1
+                live[i] = nsess
+                nsess += 1
                 evs.append("a" + i)
             else:
-                i = rng.choice(pool)
+                # mostly re-present a ClientID that already has a session, so that its map entry changes under it
+                i = rng.choice(sorted(live)) if live and pstream and rng.random() < 0.5 else rng.choice(pool)
                 avail[i] += 1
                 evs.append(carrier(i, rng.choice(ips)))
         for i in pool:
-            if avail[i] > 0:
+            # (with streams: leave some carriers unused, so that a session established earlier is still the live one
+            # of its ClientID when the last streams are opened)
+            if avail[i] > 0 and (not pstream or i not in live or rng.random() < 0.4):
+                live[i] = nsess
+                nsess += 1
                 evs.append("a" + i)
+        if pstream and live:
+            ks = sorted(live.values())
+            rng.shuffle(ks)
+            evs += ["t%d" % k for k in ks[:3]]          # a last stream on (up to 3) sessions, after everything else
         if any(e[0] == "a" for e in evs):
             scen.append((cap, evs))
     lines = ["%s bb %d %s" % (AREA, cap, ",".join(evs)) for cap, evs in scen]
-    kinds = ["bb-cap%d" % cap for cap, _ in scen]
+    kinds = ["bb-cap%d%s" % (cap, "-multistream" if any(e[0] == "t" for e in evs) else "") for cap, evs in scen]
     return lines, kinds
 
 
@@ -356,7 +408,8 @@ def run(ctx):
         "net.ParseIP is a library boundary: the driver reports its result, the model (and the python reference) take it from there",
         "sync.Mutex makes clientIDMap.Set/Get atomic: histories of concurrent carriers/sessions are lists of Set/Get events",
         "black-box scenarios swap the package variable clientIDAddrMap for a small-capacity map before Transport.Listen; "
-        "gorilla/websocket, kcp-go, smux carry the sessions and are not modelled",
+        "gorilla/websocket, kcp-go, smux carry the sessions and are not modelled; a session's further streams (t-events) are "
+        "opened one at a time and the next connection the listener hands out is taken to be that stream's",
     ]
     ctx.assumptions += [
         "models = coq/Model/ClientIdRing.v, ClientAddr.v, ServerCarrier.v (hand written); tie = correspondence on generated cases",
